@@ -32,11 +32,18 @@ pub fn cheap_params(b: &Backend, g: &mut SplitMix64) -> Vec<u8> {
     if b.pw_param_len == 4 {
         (*g.pick(&[1u32, 2, 3, 1000])).to_be_bytes().to_vec()
     } else {
-        let mem: u64 = *g.pick(&[8192u64, 16384, 65536]);
+        // memory in KiB and parallelism: also sizes that are NOT a multiple of 4 x parallelism (Argon2 works on
+        // 4 x lanes segments internally but hashes the requested size into its first block) and more than one lane
+        // where the backend supports it (libsodium: one lane only)
+        let (mem_kib, para): (u64, u32) = if b.name == "v4-sodium" {
+            (*g.pick(&[8u64, 9, 10, 11, 13, 16, 37, 64]), 1)
+        } else {
+            *g.pick(&[(8u64, 1u32), (9, 1), (10, 1), (11, 1), (13, 1), (16, 1), (64, 1), (18, 2), (37, 2), (26, 3), (64, 3)])
+        };
         let time: u32 = *g.pick(&[1u32, 2, 3]);
-        let mut v = mem.to_be_bytes().to_vec();
+        let mut v = (mem_kib * 1024).to_be_bytes().to_vec();
         v.extend_from_slice(&time.to_be_bytes());
-        v.extend_from_slice(&1u32.to_be_bytes());
+        v.extend_from_slice(&para.to_be_bytes());
         v
     }
 }
@@ -57,6 +64,17 @@ pub fn keys_for(b: &Backend, g: &mut SplitMix64) -> Keys {
     for kp in kps.iter().take(3) {
         wrappable.push(("secret", kp.sk.clone(), kp.source));
     }
+    // keys whose encodings begin / end with white space, NUL or 0xff
+    let edge = tok::edge_keypairs(b, g);
+    for kp in &edge {
+        wrappable.push(("secret", kp.sk.clone(), kp.source));
+    }
+    for t in tok::EDGE_BYTES {
+        let mut k = g.bytes(32);
+        k[0] = t;
+        k[31] = t;
+        wrappable.push(("local", k, "edge-bytes"));
+    }
     let mut recipients = vec![];
     if b.ver == "v1" {
         for der in tok::corpus_rsa_keys(4096) {
@@ -67,7 +85,7 @@ pub fn keys_for(b: &Backend, g: &mut SplitMix64) -> Keys {
             }
         }
     } else {
-        for kp in &kps {
+        for kp in kps.iter().chain(edge.iter()) {
             recipients.push((kp.sk.clone(), kp.pk.clone(), kp.source));
         }
     }
@@ -250,7 +268,7 @@ pub fn run_pke(b: &Backend, m: &mut M, rep: &mut Report, sk: &[u8], pk: &[u8], k
 
 pub fn run(ctx: &Ctx) {
     let mut rep = Report::new("C05", &ctx.tier, ctx.seed);
-    rep.rule = "wrap_pie / password_wrap[_with_params] / seal and their inverses through text on all six backends: local and secret keys (random(), parsed, boundary scalars), wrapping keys, passwords of length 0, 1, 64, 65, 128, 129 and non-UTF-8, default and cheap explicit PBKW parameters, recipient keys generated and parsed (RSA-4096 from the corpus), RNG random / all-zero / all-ff; RustCrypto backends under a scripted getrandom so the model's blob must be bit-equal; v1 seal repeated so that RSA ciphertexts with a leading zero byte occur; distinct = (backend, operation, key kind, password/parameter class)".into();
+    rep.rule = "wrap_pie / password_wrap[_with_params] / seal and their inverses through text on all six backends: local and secret keys (random(), parsed, boundary scalars, keys whose encodings begin or end with white space / NUL / 0xff; every key also cloned first), wrapping keys, passwords of length 0, 1, 64, 65, 128, 129 and non-UTF-8, default and cheap explicit PBKW parameters, recipient keys generated and parsed (RSA-4096 from the corpus), RNG random / all-zero / all-ff; RustCrypto backends under a scripted getrandom so the model's blob must be bit-equal; v1 seal repeated so that RSA ciphertexts with a leading zero byte occur; distinct = (backend, operation, key kind, password/parameter class)".into();
     let bs = lab::backends();
     let mut m = M::new(&ctx.model);
     if let Some(path) = &ctx.replay {
@@ -331,9 +349,25 @@ pub fn run(ctx: &Ctx) {
                 run_pw(b, &mut m, &mut rep, kind, b"pw", Some(&p), key, g.next(), None);
             }
         }
+        // the same operations with every key CLONED first (wrap_pie / password_wrap / seal consume the key, so callers
+        // clone; several backends write Clone by hand)
+        lab::CLONE_KEYS.store(true, std::sync::atomic::Ordering::Relaxed);
+        for (i, (kind, key, src)) in keys.wrappable.iter().enumerate() {
+            if *src == "edge-bytes" && i % 3 != 0 {
+                continue;
+            }
+            run_pie(b, &mut m, &mut rep, kind, &g.bytes(32), key, g.next(), None);
+            let p = cheap_params(b, &mut g);
+            run_pw(b, &mut m, &mut rep, kind, b"cloned", Some(&p), key, g.next(), None);
+        }
+        for (sk, pk, _) in keys.recipients.iter().take(if b.ver == "v1" { 1 } else { 3 }) {
+            run_pke(b, &mut m, &mut rep, sk, pk, &g.bytes(32), g.next(), None, true, true);
+        }
+        lab::CLONE_KEYS.store(false, std::sync::atomic::Ordering::Relaxed);
+        rep.count(&format!("{}.cloned-key-pass", b.name));
         // PKE
-        for (ri, (sk, pk, _src)) in keys.recipients.iter().enumerate() {
-            let n = if b.ver == "v1" { 2 } else { if thorough { 20 } else { 5 } };
+        for (ri, (sk, pk, src)) in keys.recipients.iter().enumerate() {
+            let n = if b.ver == "v1" { 2 } else if *src == "edge-bytes" { 1 } else { if thorough { 20 } else { 5 } };
             for j in 0..n {
                 let key = if j == 0 { vec![0u8; 32] } else { g.bytes(32) };
                 let fixed = if b.ver != "v1" && b.ver != "v3" && j == 1 { Some(0xff) } else { None };
